@@ -29,6 +29,7 @@ RULE = (
     "repeat); cli: python -m mokapot.mokapot --seed s --save_models, then --load_models in every permutation "
     "(3 folds: 6, thorough 4 folds: 24), with and without --ensemble, across hash seeds. No tolerance: digests must be equal. Non-trivial = "
     "a group with >= 2 distinct hash seeds or >= 2 worker counts whose runs all succeeded; distinct = group id."
+    " The API groups without FASTA use a spectrum key with a string-valued member (file name)."
 )
 ASSUMPTIONS = [
     "np.random.seed(seed) is part of 'a fixed seed' for the API path (the CLI does the same; decoy->target matching uses the global state)",
@@ -85,7 +86,9 @@ def build_api(case, d, vseed):
     else:
         spec["learner"] = learner
     if fasta_mode == "none":
-        tab = psm.psm_table(rng, n_spectra=int(rng.integers(250, 400)), mult_max=3, key_cols=("ExpMass",), ties=True,
+        # spectrum key with a string-valued member (the MS file name): anything derived from it by hashing must not
+        # depend on the interpreter's hash seed
+        tab = psm.psm_table(rng, n_spectra=int(rng.integers(250, 400)), mult_max=3, key_cols=("filename", "ExpMass"), n_files=3, ties=True,
                             levels=("ModifiedPeptide",), pep_pool=20)
     else:
         db = prot.protein_db(rng, n_prot=90, anagrams=40 if case.get("class") == "repeat" else 12)
